@@ -215,9 +215,9 @@ Fixpoint m_run (s : ps) (evs : list event) : ps * list reply :=
 
 End WithGlob.
 
-(** * The executable glob fragment: literal characters, [?] (one character), [*] (any sequence).
-    A pattern containing one of [ ] { } \ ! , is outside the fragment: [glob_ok_frag] says no, and the
-    generators only emit such a pattern when gobwas/glob refuses it too ("[", "a[", "{"). *)
+(** * The executable glob fragment: literal characters, [?] (one character), [*] (any sequence), and brace
+    alternatives [{a,b}] (below).  A pattern outside the fragment: [glob_ok_frag] says no, and the generators only
+    emit such a pattern when gobwas/glob refuses it too ("[", "a[", "{"). *)
 Fixpoint glob_chars (fuel : nat) (p t : list Ascii.ascii) : bool :=
   match fuel with
   | O => false
@@ -232,11 +232,55 @@ Fixpoint glob_chars (fuel : nat) (p t : list Ascii.ascii) : bool :=
       end
   end.
 
+(** Brace alternatives [{a,b,…}] (gobwas/glob "pattern lists"; not nested here): the pattern is expanded into the list of
+    its alternatives before matching.  [None]: outside the fragment (a brace that is not closed, a nested brace, a comma
+    or a closing brace outside a group, or one of [ ] \ !). *)
+Fixpoint brace_alts (cs cur : list Ascii.ascii) (acc : list (list Ascii.ascii))
+  : option (list (list Ascii.ascii) * list Ascii.ascii) :=
+  match cs with
+  | [] => None
+  | "}"%char :: r => Some (rev (rev cur :: acc), r)
+  | ","%char :: r => brace_alts r [] (rev cur :: acc)
+  | "{"%char :: _ => None
+  | c :: r => brace_alts r (c :: cur) acc
+  end.
+
+Definition other_special (a : Ascii.ascii) : bool :=
+  existsb (Ascii.eqb a) ["["; "]"; "\"; "!"]%char.
+
+Fixpoint expand_braces (fuel : nat) (p : list Ascii.ascii) : option (list (list Ascii.ascii)) :=
+  match fuel with
+  | O => None
+  | S f =>
+      match p with
+      | [] => Some [[]]
+      | "{"%char :: r =>
+          match brace_alts r [] [] with
+          | Some (alts, rest) =>
+              match expand_braces f rest with
+              | Some tails => Some (flat_map (fun a => map (app a) tails) alts)
+              | None => None
+              end
+          | None => None
+          end
+      | "}"%char :: _ | ","%char :: _ => None
+      | c :: r => if other_special c then None
+                  else match expand_braces f r with Some l => Some (map (cons c) l) | None => None end
+      end
+  end.
+
+Definition expand_pattern (p : string) : option (list (list Ascii.ascii)) :=
+  expand_braces (S (length (chars p))) (chars p).
+
 Definition glob_match_frag (p t : string) : bool :=
-  let pc := chars p in let tc := chars t in
-  glob_chars (S (length pc + length tc)) pc tc.
+  let tc := chars t in
+  match expand_pattern p with
+  | Some alts => existsb (fun pc => glob_chars (S (length pc + length tc)) pc tc) alts
+  | None => false
+  end.
 
 Definition special_char (a : Ascii.ascii) : bool :=
   existsb (Ascii.eqb a) ["["; "]"; "{"; "}"; "\"; "!"; ","]%char.
 
-Definition glob_ok_frag (p : string) : bool := negb (existsb special_char (chars p)).
+Definition glob_ok_frag (p : string) : bool :=
+  match expand_pattern p with Some _ => true | None => false end.
